@@ -83,6 +83,10 @@ recorded finding. -/
 theorem C30_extracted_shape :
     SerfModel.Gen.AgentSetTags.shape.SerfFirst = true ∨ SerfModel.Gen.AgentSetTags.shape = ⟨true, false⟩ := by decide
 
+/-- Source-tied obligation (since the repair c4cada7): in the current tree `Agent.SetTags` asks Serf first
+and writes the tags file only after Serf accepted the tags. -/
+theorem C30_current_tree_serf_first : SerfModel.Gen.AgentSetTags.shape.SerfFirst = true := by decide
+
 theorem step_serfFirst_inv (sh : SetTagsShape) (h : sh.SerfFirst = true) (s : St) (e : TagEdit)
     (hs : s.file = s.effective) : (step sh s e).1.file = (step sh s e).1.effective := by
   unfold step
@@ -105,6 +109,12 @@ theorem C30_persisted (sh : SetTagsShape) (h : sh.SerfFirst = true) (s : St) (op
   run_serfFirst_inv sh h _ s hs
 
 example : (⟨false, true⟩ : SetTagsShape).SerfFirst = true := by decide
+
+/-- `C30_persisted` instantiated at the shape regenerated from the current tree. -/
+theorem C30_persisted_current_tree (s : St) (ops : List TagEdit) (hs : s.file = s.effective) (n : Nat) :
+    (run SerfModel.Gen.AgentSetTags.shape s (ops.take n)).file
+      = (run SerfModel.Gen.AgentSetTags.shape s (ops.take n)).effective :=
+  C30_persisted _ C30_current_tree_serf_first s ops hs n
 
 /-- … and then the next start loads exactly the tags in effect and succeeds. -/
 theorem C30_restart_exact (s : St) (hs : s.file = s.effective) (hf : fits s.effective = true) :
